@@ -20,6 +20,7 @@ import (
 	"time"
 
 	"verif/harness/mon"
+	"verif/harness/pipe"
 	"verif/harness/wire"
 )
 
@@ -37,7 +38,7 @@ type event struct {
 
 type scenCase struct {
 	Sc     scenario
-	Fed    []fedInfo
+	Fed    []pipe.FedInfo
 	Desc   string
 	Race   bool
 	Mirror bool
@@ -80,8 +81,8 @@ func buildScenario(seed int64, mode string, idx int, thorough bool) *scenCase {
 		nexp = g.Range(20, 50)
 	}
 	sc := &scenCase{Sc: scenario{Proto: proto, UDPSize: size, Workers: workers, GoMaxProcs: procs}}
-	tr := newTraffic(g, proto, nexp, size, snap, mode == "mirror")
-	lib := newLibCache()
+	tr := pipe.NewTraffic(g, proto, nexp, size, snap, mode == "mirror", mode == "json")
+	lib := pipe.NewLibCache()
 	id := 0
 	feed := func(e, d []byte, kind string, phase int) {
 		id++
@@ -89,12 +90,12 @@ func buildScenario(seed int64, mode string, idx int, thorough bool) *scenCase {
 			d = d[:size] // what the receive buffer would hold
 		}
 		sc.Sc.Steps = append(sc.Sc.Steps, step{Op: "feed", Addr: mon.Hex(e), Port: 1000 + id%5000, Dgram: mon.Hex(d), ID: id})
-		sc.Fed = append(sc.Fed, fedInfo{ID: id, Addr: e, Dgram: d, Kind: kind, Phase: phase})
+		sc.Fed = append(sc.Fed, pipe.FedInfo{ID: id, Addr: e, Dgram: d, Kind: kind, Phase: phase})
 	}
 	phase := 0
 	if proto == "ipfix" || proto == "nf9" {
-		for _, e := range tr.exporters {
-			feed(e, tr.tplDgrams[mon.Hex(e)], "templates", 0)
+		for _, e := range tr.Exporters {
+			feed(e, tr.TplDgrams[mon.Hex(e)], "templates", 0)
 		}
 		sc.Sc.Steps = append(sc.Sc.Steps, step{Op: "barrier"})
 		phase = 1
@@ -110,16 +111,16 @@ func buildScenario(seed int64, mode string, idx int, thorough bool) *scenCase {
 		}
 	}
 	for k := 0; k < n; k++ {
-		e := tr.exporters[g.Intn(len(tr.exporters))]
+		e := tr.Exporters[g.Intn(len(tr.Exporters))]
 		r := g.Intn(100)
 		switch {
 		case mode == "account" && r < 8 && (proto == "ipfix" || proto == "nf9"):
-			feed(e, tr.tplDgrams[mon.Hex(e)], "template-only (same definitions again)", phase)
+			feed(e, tr.TplDgrams[mon.Hex(e)], "template-only (same definitions again)", phase)
 		case mode == "account" && r < 16 && (proto == "ipfix" || proto == "nf9"):
 			b, _ := wire.EncodeFlow(proto, []uint32{1, uint32(id + 1), uint32(id + 1), 4}, []wire.Set{{Kind: wire.SetRaw, SetID: uint16(5000 + g.Intn(100)), RawBody: g.Bytes(4 * g.Range(1, 8))}})
 			feed(e, b, "unknown template", phase)
 		case mode == "account" && r < 24:
-			d := tr.data(e, id+1, false)
+			d := tr.Data(e, id+1, false)
 			switch g.Intn(4) {
 			case 0:
 				d = d[:g.Intn(len(d))]
@@ -135,7 +136,7 @@ func buildScenario(seed int64, mode string, idx int, thorough bool) *scenCase {
 		default:
 			// alternate sizes: a maximum-size datagram followed by a tiny one, so that stale octets
 			// of a recycled buffer would survive into the next decode
-			feed(e, tr.data(e, id+1, k%2 == 0), "data", phase)
+			feed(e, tr.Data(e, id+1, k%2 == 0), "data", phase)
 		}
 		if churnAt[k] {
 			if g.Bool() {
@@ -151,8 +152,8 @@ func buildScenario(seed int64, mode string, idx int, thorough bool) *scenCase {
 	// expectations: templates first (phase 0 order), then every datagram on the frozen cache
 	for i := range sc.Fed {
 		f := &sc.Fed[i]
-		f.Expect, f.Class, _ = standalone(proto, f.Addr, f.Dgram, lib, nil)
-		f.Key = tr.key(f.Addr, f.ID, f.Dgram)
+		f.Expect, f.Class, _ = pipe.Standalone(proto, f.Addr, f.Dgram, lib, nil)
+		f.Key = tr.Key(f.Addr, f.ID, f.Dgram)
 	}
 	sc.Desc = fmt.Sprintf("%s #%d %s workers=%d gomaxprocs=%d udp-size=%d exporters=%d datagrams=%d", mode, idx, proto, workers, procs, size, nexp, len(sc.Fed))
 	return sc
@@ -309,6 +310,8 @@ func main() {
 		pipeMain(args, "C12", "alias")
 	case "C13":
 		pipeMain(args, "C13", "account")
+	case "C05":
+		pipeMain(args, "C05", "json")
 	case "C16":
 		mirrorMain(args)
 	default:
@@ -344,8 +347,8 @@ func checkPublished(run *mon.Run, prop string, sc *scenCase, ro runOut, idx int,
 		run.Violation(sig, fmt.Sprintf("%s: the worker pipeline died: %v; %s", sc.Desc, ro.Err, clip(firstPanic(ro.Output), 500)), wit("pipeline crashed"))
 		return
 	}
-	byKey := map[string]*fedInfo{}
-	byID := map[int]*fedInfo{}
+	byKey := map[string]*pipe.FedInfo{}
+	byID := map[int]*pipe.FedInfo{}
 	for i := range sc.Fed {
 		f := &sc.Fed[i]
 		byID[f.ID] = f
@@ -362,15 +365,15 @@ func checkPublished(run *mon.Run, prop string, sc *scenCase, ro runOut, idx int,
 		published++
 		b := mon.UnHex(e.B)
 		if proto == "sflow" {
-			b = maskColTime(b)
+			b = pipe.MaskColTime(b)
 		}
-		key := payloadKey(proto, b)
+		key := pipe.PayloadKey(proto, b)
 		f := byKey[key]
 		if f == nil {
 			// C12: payload of no fed datagram; find the nearest for the report
 			w := wit("a published payload carries an identity that no fed datagram with records has")
 			w.Got = clip(string(b), 600)
-			if prop == "C12" {
+			if prop == "C12" || prop == "C05" {
 				run.Violation("pipe:"+proto+":foreign-payload", fmt.Sprintf("%s: published payload with identity %s matches no fed datagram: %s", sc.Desc, key, clip(string(b), 200)), w)
 			} else {
 				run.Violation("pipe:"+proto+":published-not-received", fmt.Sprintf("%s: a message with identity %s was published although no received datagram yields it", sc.Desc, key), w)
@@ -382,7 +385,12 @@ func checkPublished(run *mon.Run, prop string, sc *scenCase, ro runOut, idx int,
 			inversions++
 		}
 		lastID = f.ID
-		if prop == "C12" && !bytes.Equal(b, f.Expect) {
+		if prop == "C05" && !json.Valid(b) {
+			w := wit("a payload handed to the message queue is not a valid JSON document")
+			w.Got, w.Dgram, w.Exporter = clip(string(b), 1500), mon.Hex(f.Dgram), mon.Hex(f.Addr)
+			run.Violation("pipe:"+proto+":invalid-json", fmt.Sprintf("%s: datagram %d: the published payload is not valid JSON: %s", sc.Desc, f.ID, clip(string(b), 200)), w)
+		}
+		if (prop == "C12" || prop == "C05") && !bytes.Equal(b, f.Expect) {
 			w := wit("published payload differs from what decoding the datagram alone produces")
 			w.Got, w.Want, w.Dgram, w.Exporter = clip(string(b), 1500), clip(string(f.Expect), 1500), mon.Hex(f.Dgram), mon.Hex(f.Addr)
 			at := 0
@@ -504,6 +512,9 @@ func pipeMain(args mon.Args, prop, mode string) {
 	} else {
 		nPlain := run.Pick(24, 800)
 		nRace := run.Pick(8, 800)
+		if mode == "json" {
+			nPlain, nRace = run.Pick(12, 200), run.Pick(0, 40)
+		}
 		for i := 0; i < nPlain; i++ {
 			jobs = append(jobs, job{i, false})
 		}
@@ -603,7 +614,9 @@ func pipeMain(args mon.Args, prop, mode string) {
 	run.Set("distinct_configurations", len(configs))
 	run.Set("race_reports_by_attribution", raceAttr)
 	run.Set("race_reports_by_frames", raceEntries)
-	if mode == "alias" {
+	if mode == "json" {
+		run.SetRule("pipeline tier of C05: the C12 scenarios with hostile field contents (strings with quotes/backslashes/control/non-UTF-8 octets, NaN/Inf floats, booleans, MAC addresses forced into every template) through the real worker goroutines; every payload taken from the message-queue channel must be a valid JSON document and byte-identical to the stand-alone library encoding that the first tier validated member by member. distinct = scenario configuration")
+	} else if mode == "alias" {
 		run.SetRule("scenarios for the in-repo driver (real ipfixWorker/netflowV9Worker/netflowV5Worker/sFlowWorker goroutines, real channels and sync.Pool buffers): templates announced and frozen behind a barrier (workers joined), then 100-900 datagrams of alternating size (maximum-size followed by tiny) from 1-50 exporters, each with a unique identity (exporter, sequence) and identity-derived values; worker counts {1,2,3,8,64,200} × GOMAXPROCS {1,2,16} × max-udp-size {512,1500,9000}, plain and race builds. The message-queue channel is drained only after the workers joined. Oracle: every published payload is byte-for-byte what the library decoder produces for that datagram alone on a private cache fed the same templates (sFlow collector time masked). distinct = scenario configuration; non-trivial = something was published")
 	} else {
 		run.SetRule("as C12, with mixes of decodable, template-only, unknown-template, malformed, truncated and empty datagrams and worker churn (quit channels closed / workers added mid-stream). Oracle over the event log: each datagram that yields records is published exactly once, nothing else is published, no identity twice; DecodedCount lies in [definite successes, definite + partial] (partial = message together with an error, or sFlow success with zero samples: 'decodes successfully' is undefined for them). UDPCount belongs to run() and is checked by the end-to-end tier")
